@@ -451,11 +451,127 @@ async def op_logcall(req):
     return out
 
 
+TRIG_SITES = ["trig_state", "trig_event", "trig_active", "trig_wait"]
+
+
+def trig_script(items, shadow_name=None):
+    """script whose trigger string expressions record what `name` denotes there: pv_seen[i].append(<name>)"""
+    out = ["pv_seen = {}\n"]
+    if shadow_name is not None:
+        out.append(f"{shadow_name} = 'PVUSER'\n")
+    for i, (site, name) in enumerate(items):
+        out.append(f"pv_seen[{i}] = []\n")
+        e = f"pv_seen[{i}].append({name}) is None"
+        if site == "trig_state":
+            out.append(f"@state_trigger(\"pyscript.pvx == '1' and {e}\")\ndef pv_t{i}():\n    pass\n")
+        elif site == "trig_event":
+            out.append(f"@event_trigger('pv_ev', \"{e}\")\ndef pv_t{i}():\n    pass\n")
+        elif site == "trig_active":
+            out.append(f"@state_trigger(\"pyscript.pvx == '1'\")\n@state_active(\"{e}\")\ndef pv_t{i}():\n    pass\n")
+        elif site == "trig_wait":
+            out.append(f"@time_trigger('startup')\ndef pv_t{i}():\n    task.wait_until(state_trigger=\"pyscript.pvx == '1' and {e}\")\n")
+        else:
+            raise ValueError(site)
+    return "".join(out)
+
+
+def flip_script(via, stmt):
+    s = stmt_src(stmt)
+    body = s if via == "direct" else f"exec({s!r})"
+    return ("pv__r = {}\npv__e = {}\n@service\ndef pv_run():\n    pv__r.clear()\n    pv__e.clear()\n    try:\n        try:\n"
+            f"            {body}\n        except Exception as pv__x:\n            pv__e['exc'] = pv__x\n    finally:\n"
+            "        pv__r.update(locals())\n")
+
+
+async def op_trignames(req):
+    """names looked up inside trigger string expressions of a really loaded script, one PyscriptEnv per group"""
+    import builtins
+
+    from custom_components.pyscript.global_ctx import GlobalContextMgr
+    from vh.hassenv import PyscriptEnv
+
+    out = []
+    for group in req["groups"]:
+        items = [(c["scope"], c["name"]) for c in group["cases"]]
+        shadow = group["cases"][0]["name"] if group["shadow"] else None
+        async with PyscriptEnv(files={"pvtrig.py": trig_script(items, shadow)}, allow_all_imports=False, legacy=group["legacy"]) as env:
+            hass = env.hass
+            hass.states.async_set("pyscript.pvx", "0")
+            await env.settle()
+            hass.states.async_set("pyscript.pvx", "1")
+            await env.settle()
+            hass.bus.async_fire("pv_ev", {"pv_a": 1})
+            await env.settle()
+            gc = GlobalContextMgr.get("file.pvtrig")
+            seen = gc.global_sym_table.get("pv_seen", {}) if gc else {}
+            for i, (site, name) in enumerate(items):
+                vals = seen.get(i, [])
+                kind, exc = "KOther", ""
+                if vals:
+                    v = vals[0]
+                    if v == "PVUSER":
+                        kind = "KUser"
+                    elif hasattr(builtins, name) and v is getattr(builtins, name):
+                        kind = "KBuiltin"
+                    elif getattr(v, "__name__", "") in ("eval_func", "globals_func", "locals_func"):
+                        kind = "KFactory"
+                    else:
+                        exc = "value " + repr(v)[:60]
+                else:
+                    needle = f"NameError: name '{name}' is not defined"
+                    for _lg, _lv, msg in env.log.records:
+                        if needle in msg and (f"pv_seen[{i}]" in msg or f"pv_t{i}" in msg or (site == "trig_wait" and "run_coro" in msg)):
+                            kind, exc = "KUndefined", needle
+                            break
+                out.append({"kind": kind, "logger_ok": False, "pybuiltin": hasattr(builtins, name), "exc": exc})
+    return out
+
+
+async def op_optflip(req):
+    """allow_all_imports switched at run time (config entry data updated, no reload); the import runs inside a @service
+    function of a script that was loaded before the switch"""
+    from custom_components.pyscript.const import ALLOWED_IMPORTS, CONF_ALLOW_ALL_IMPORTS, DOMAIN
+    from custom_components.pyscript.global_ctx import GlobalContextMgr
+    from vh.hassenv import PyscriptEnv
+
+    out = []
+    for case in req["cases"]:
+        if not all(m in req["safe"] for m in stmt_modules(case["stmt"])):
+            raise RuntimeError(f"unsafe case with allow_all_imports: {case}")
+        steps = []
+        async with PyscriptEnv(files={"pvflip.py": flip_script(case["via"], case["stmt"])}, allow_all_imports=case["aa0"], legacy=case["legacy"]) as env:
+            hass = env.hass
+            pdir = hass.config.path("pyscript")
+            gc = GlobalContextMgr.get("file.pvflip")
+            for val in case["seq"]:
+                entry = hass.config_entries.async_entries(DOMAIN)[0]
+                if bool(entry.data.get(CONF_ALLOW_ALL_IMPORTS, False)) != bool(val):
+                    data = dict(entry.data)
+                    data[CONF_ALLOW_ALL_IMPORTS] = bool(val)
+                    hass.config_entries.async_update_entry(entry, data=data)
+                    await env.settle()
+                g = gc.global_sym_table
+                before = dict(g)
+                with StubLog() as sl:
+                    await hass.services.async_call("pyscript", "pv_run", {}, blocking=True)
+                    await env.settle()
+                exc = g["pv__e"].get("exc")
+                status, tn = classify_exc(exc, sl.hit)
+                bound = sorted([k] + origin_of(v, k, case["stmt"], pdir) for k, v in g["pv__r"].items() if not k.startswith("pv__"))
+                stray = sorted(k for k, v in g.items() if not k.startswith("pv__") and (k not in before or before[k] is not v))
+                steps.append({"aa": bool(val), "status": status, "exc": tn, "msg": str(exc)[:100] if exc else "", "bound": bound, "stray": stray,
+                              "entry_aa": bool(hass.config_entries.async_entries(DOMAIN)[0].data.get(CONF_ALLOW_ALL_IMPORTS, False))})
+        fc = dict(case, aa=True)
+        out.append({"steps": steps, "sys": sys_facts(fc, set(req["safe"]), set(ALLOWED_IMPORTS))})
+    return out
+
+
 def main():
     from vh.hassenv import run_virtual
 
     req = json.loads(sys.stdin.read())
-    op = {"imports": op_imports, "shadow": op_shadow, "names": op_names, "logcall": op_logcall}[req["op"]]
+    op = {"imports": op_imports, "shadow": op_shadow, "names": op_names, "logcall": op_logcall,
+          "trignames": op_trignames, "optflip": op_optflip}[req["op"]]
     real_stdout = sys.stdout
     sys.stdout = sys.stderr  # anything the environment prints is log, not result
     try:
